@@ -666,3 +666,36 @@ def c17_truncation_matrix(lo, hi, flavour="initix"):
         h.op(f"create @{s} 0={ul(0)} 1=01 2=01 3={hx('after')} 11=aabb")
         h.op("fini"); h.op("nop mxstat")
     return h.text()
+
+
+# ---------------------------------------------------------------------------------------------------------
+# C02: the one-way protections, tried by EVERY role (nobody / user / SO logged in), on session and token keys
+# ---------------------------------------------------------------------------------------------------------
+def c02_protection_roles(seed=1):
+    """A public AES key (public so that the SO can reach it) with ONE protection set - CKA_WRAP_WITH_TRUSTED true, CKA_SENSITIVE true or
+    CKA_EXTRACTABLE false - as session and as token object; while nobody, the user, the SO is logged in: C_SetAttributeValue and C_CopyObject try to take the protection
+    away (alone, and together with a harmless label change); the three flags are read before and after, of the object and of every copy that was made.
+    Judged on the implementation's answers alone (`protection_direct`): a flag that went back, a copy weaker than its source."""
+    rng = random.Random(seed)
+    h = OpsGen(rng)
+    h.prologue(1)
+    t = h.toks[0]
+    k = h.open(t, True)
+    U = ul
+    READ = "103:1 162:1 210:1"
+    for who in ("nobody", "user", "so"):
+        if who == "user": h.op(f"login @{k} 1 {hx(t.user)}")
+        elif who == "so": h.op(f"login @{k} 0 {hx(t.so)}")
+        for tok in ("00", "01"):
+            if tok == "01" and who == "nobody": continue           # a token object needs a R/W user or SO session to be written
+            for prot, weak in (("210=01 162=01 103=00", "210=00"), ("103=01 162=01 210=00", "103=00"), ("162=00 103=00 210=00", "162=01")):
+                o = h.op(f"create @{k} 0={U(4)} 100={U(0x1f)} 11={'5e' * 16} 1={tok} 2=00 3={hx(h.new_label())} 104=01 105=01 {prot}"); h.minted += 1
+                h.op(f"getattr @{k} @{o} {READ}")
+                for tmpl in (weak, f"3={hx(h.new_label())} {weak}", f"{weak} 3={hx(h.new_label())}"):
+                    h.op(f"setattr @{k} @{o} {tmpl}"); h.op(f"getattr @{k} @{o} {READ}")
+                    c = h.op(f"copy @{k} @{o} {tmpl}"); h.minted += 1
+                    h.op(f"getattr @{k} @{c} {READ}"); h.op(f"destroy @{k} @{c}")
+                h.op(f"destroy @{k} @{o}")
+        if who in ("user", "so"): h.op(f"logout @{k}")
+    h.op("fini")
+    return h.text()
